@@ -304,6 +304,14 @@ partial def pyObjOfGo : GoVal → Option PyObj
   | .map kvs => (kvs.mapM fun (k, v) => do pure ((← pyObjOfGo k), (← pyObjOfGo v))).map .dict
   | _ => none
 
+/-- The memo indices fetched by the GET instructions of a pickle. -/
+partial def getKeys (bs : Bytes) (acc : List Nat) : List Nat :=
+  match parseInsn bs with
+  | .ok (.get k, rest) => getKeys rest ((parseDigits? k).getD 0 :: acc)
+  | .ok (.stop, _) => acc
+  | .ok (_, rest) => if rest.length < bs.length then getKeys rest acc else acc
+  | .error _ => acc
+
 /-- A Python object with identities: a str / bytes / bytearray leaf is written `c( C<hex "id">.<hex decimal id> leaf )`. -/
 partial def pyObjSOfGo : GoVal → Option PyObjS
   | .none => some .none
@@ -377,7 +385,7 @@ def handle (line : String) : String :=
   | "cpk" :: framed :: proto :: toks =>      -- the model of CPython's pickler; then, per decoder mode, whether `pkOKb` holds
     match proto.toNat?, (parseValue? toks).bind pyObjOfGo with
     | some p, some v =>
-      match (if framed == "1" then cpDumpsFramed p v else cpDumps p v) with
+      match (if framed == "1" then cpDumpsFramed false p v else if framed == "P" then cpDumps true p v else cpDumps false p v) with
       | some bs =>
         let flag (pd : Bool) : String := if pkOKb { pyDict := pd, su := false } v then "1" else "0"
         "OK " ++ hexOfBytes bs ++ " " ++ flag false ++ flag true
@@ -388,9 +396,23 @@ def handle (line : String) : String :=
     | some c, some h, some inp => runDecH (refCfg c) h inp
     | _, _, _ => "BADCASE"
   | "cpks" :: framed :: proto :: toks =>      -- the pickler model with the memo read (shared leaves, low-protocol bytes)
+    -- framed: 0 = C pickler, frames taken out; 1 = C pickler with its one frame; P = pure-Python pickler; O = pickletools.optimize
     match proto.toNat?, (parseValue? toks).bind pyObjSOfGo with
     | some p, some v =>
-      match (if framed == "1" then cpDumpsFramedS p v else cpDumpsS p v) with
+      let all : Option PKey → Bool := fun _ => true
+      -- what optimize keeps: the PUTs of objects that are fetched again in the full pickle
+      let full := cpSaveS all false p v ⟨0, []⟩
+      let gets : List Nat := match full with
+        | some (bs, _) => getKeys bs []
+        | none => []
+      let tab : List (PKey × Nat) := match full with
+        | some (_, st) => st.tab.filter fun e => gets.contains e.2
+        | none => []
+      let mzO : Option PKey → Bool := fun key => match key with
+        | none => false
+        | some k => tab.any fun e => decide (e.1 = k)
+      match (if framed == "1" then cpDumpsFramedS all false p v else if framed == "P" then cpDumpsS all true p v
+             else if framed == "O" then cpDumpsS mzO false p v else cpDumpsS all false p v) with
       | some bs =>
         let flag (pd : Bool) : String := if pkOKb { pyDict := pd, su := false } (erase v) then "1" else "0"
         "OK " ++ hexOfBytes bs ++ " " ++ flag false ++ flag true
